@@ -13,12 +13,13 @@
        6.2 r1 defines (power_order_is_library_order);
      - the mainline ordering is a permutation sorted by (position, steps, timestamp, ID);
      - the partial state is a map: the result has at most one event per key.
-   Not proved (covered by the correspondence and the oracles only): that the model's split /
-   auth-difference walk / control-set closure equal their V2Spec definitions, and the v1
-   resolver's refinement r7. *)
+     - split_is_spec: the unconflicted events are exactly the specification's.
+   Not proved (covered by the correspondence and the oracles only): that the model's
+   auth-difference walk / conflicted-subgraph enumeration / control-set closure equal their
+   V2Spec definitions, and the v1 resolver's refinement r7. *)
 From Coq Require Import Permutation Sorted.
 From Verif Require Import Lib.Bytes StateRes.Event StateRes.Kahn StateRes.V2 StateRes.V1 StateRes.Entry
-     StateRes.SortProofs StateRes.KahnProofs StateRes.OrderProofs StateRes.ResultProofs StateRes.CmpProofs StateRes.KahnOrderProofs.
+     StateRes.SortProofs StateRes.KahnProofs StateRes.OrderProofs StateRes.ResultProofs StateRes.CmpProofs StateRes.KahnOrderProofs StateRes.V2Spec StateRes.OrderSetProofs StateRes.SplitProofs.
 
 Section C10.
   Variable allowed : event -> list event -> bool.
@@ -115,6 +116,17 @@ Section C10.
   Qed.
 End C10.
 
+
+(* the split of v2 / v2.1 computes the specification's unconflicted state map: an event is
+   reported unconflicted iff its key is present in every state set with that same event
+   (state sets without repeated entries; event IDs identify events) *)
+Theorem split_is_spec (shG : groups -> groups) (sets : list (list event)) (e : event) :
+  (forall l, Permutation (shG l) l) ->
+  (forall s, In s sets -> NoDup (ids_of s)) ->
+  ids_identify (concat sets) ->
+  (In e (snd (split_conflicted shG false sets)) <-> In e (dedup_events (concat sets)) /\ spec_unconflicted sets e).
+Proof. intros. apply split_unconflicted_is_spec; assumption. Qed.
+
 (* the resolved state is a map: at most one event per (type, state_key), for every auth-rule
    oracle, rejected-event oracle and map iteration order *)
 Theorem result_is_a_state_map allowed rejected shE shP shG priv cl ud v21 sets auth_events e1 e2 :
@@ -142,4 +154,5 @@ Print Assumptions unconflicted_in_result.
 Print Assumptions power_order_is_topological.
 Print Assumptions power_order_is_library_order.
 Print Assumptions mainline_order_sorted.
+Print Assumptions split_is_spec.
 Print Assumptions result_is_a_state_map.
